@@ -17,6 +17,7 @@ import PdfModel.Drv.Obj
   c03.class <byte>                     → <ws><delim><hexws><octal> <nibble|-> <hexdigit|->
   c03.tok <tok>                        → <isint> <real|none> <i32|none> <u64|none> <name|err>
   c03.utf8 <bytes>                     → 0 | 1
+  c03.floattext <bytes>                → 0 | 1   (does the driver's `parseReal` accept the text: assumed = f32::from_str)
   c03.litstr <buf> <pos>               StringLexer loop      → ok <bytes> <pos>
   c03.hexstr <buf> <pos>               HexStringLexer loop   → ok <bytes> <pos>
   c03.parse <mode> <buf> <pos> <flags> <fileoff> <lens> [<id>.<gen>]
@@ -118,6 +119,10 @@ def handle (args : List String) : String :=
   | ["c03.utf8", t] =>
     match bytesOfHex t with
     | some bs => b01 (utf8Valid bs)
+    | none => "bad-request"
+  | ["c03.floattext", t] =>
+    match bytesOfHex t with
+    | some bs => b01 (validFloatText bs)
     | none => "bad-request"
   | ["c03.litstr", b, p] =>
     match bufOf b, natOf p with
